@@ -576,8 +576,21 @@ func (c *fchk) stmt(s *Stmt) (bool, string) {
 				es = append(es, &Expr{K: "var", X: x})
 			}
 		}
-		if len(es) == 1 && es[0].K == "call" && len(es[0].Fn.Results) != 1 {
-			return false, "return_call_multi"
+		if len(es) == 1 && es[0].K == "call" {
+			// `return f(..)`: all results of the call at once (retCallOf)
+			rs, why := c.call(es[0])
+			if why != "" {
+				return false, why
+			}
+			if len(rs) != len(c.f.Results) {
+				return false, "return_arity"
+			}
+			for i, t := range rs {
+				if !tyEqGo(t, c.f.Results[i]) {
+					return false, "type_mismatch"
+				}
+			}
+			return true, ""
 		}
 		var vs []fexp
 		for _, e := range es {
@@ -1000,6 +1013,9 @@ func (fs featSet) block(ss []*Stmt, ifDepth int, inLoop bool) bool {
 			}
 			if len(s.Es) > 1 {
 				fs["two_results"] = true
+			}
+			if len(s.Es) == 1 && s.Es[0].K == "call" && len(s.Es[0].Fn.Results) > 1 {
+				fs["return_call_multi"] = true
 			}
 			for _, e := range s.Es {
 				if e.IsConst() {
